@@ -2,7 +2,8 @@ PROP = dict(
     id="C03",
     disabled=True,
     engines=["c03"],
-    go_tags=["c03"],
+    go_tags=["c03", "c04"],   # c04: the in-process mesh used by the `tunnel` ops lives in eng_c04.go
+    timeout=600,
     gen_files={"MM/Gen/C03.lean": "c03"},
     lean_modules=["MM.Props.C03"],
     theorems=[
@@ -19,7 +20,8 @@ PROP = dict(
     spec=True,
     rule="ops on the real crypto package vs executable HKDF-SHA256 / X25519 references in Lean: kdf (DeriveSessionKey.Key() for random/zero/0xff "
          "secrets and keys, request ids 0, 2^63, 2^64-1, random), kdf2 (two derivations differing in one bit of one component, swapped key order, or nothing), "
-         "dh (ComputeECDH on random, honest, all-zero and all 12 small-order/non-canonical remote keys), pair (both roles on real X25519 key pairs); "
+         "dh (ComputeECDH on random, honest, all-zero and all 12 small-order/non-canonical remote keys), pair (both roles on real X25519 key pairs), "
+         "tunnel (one live tunnel per kind tcp/udp/forward/file/shell through three real in-process agents: the echo only returns if both call sites agree); "
          "every op is non-trivial",
     trusted_base=[
         "X25519 commutativity is a field of the DH structure (hypothesis); it is exercised on real key pairs by the `pair` ops, not proved",
@@ -38,7 +40,27 @@ PROP = dict(
              "C03_zero_refused / C03_low_order_refused for ComputeECDH; tied to the code by the go/ast site table and a byte-for-byte differential run "
              "against executable HKDF-SHA256 and X25519 references, including all small-order points",
         design_ref="DESIGN.md section 5 C03",
-        note="X25519 commutativity and HKDF injectivity are hypotheses; AST facts are syntactic; per-kind end-to-end key equality in a live mesh is not run",
+        note="X25519 commutativity and HKDF injectivity are hypotheses; AST facts are syntactic; live tunnels cover tcp/udp/forward/file/shell, ICMP call sites are covered by the table only",
         technique="Lean 4 proof over a regenerated call-site table + differential correspondence harness with executable crypto references",
     ),
 )
+
+
+def before_diff(c):
+    """If a theorem (e.g. a regenerated-fact tie) no longer compiles, the drivers were not picked up by
+    the shared build stage. Build just the engines so that the differential run and the failing-input
+    search still happen (the failed theorem stays a failed obligation)."""
+    import os, shutil
+    import vlib
+    if getattr(c, "lake_ok", True) or not c.harness:
+        return
+    engines = PROP.get("lean_engines", PROP.get("engines", []))
+    ok, _out, _failed = vlib.lake_build(["drv_" + e.lower() for e in engines])
+    if not ok:
+        return
+    for e in engines:
+        src = os.path.join(vlib.LEAN, ".lake", "build", "bin", "drv_" + e.lower())
+        if os.path.exists(src):
+            dst = os.path.join(c.tmp, "drv_" + e.lower())
+            shutil.copy2(src, dst)
+            c.drivers[e] = dst
